@@ -5,21 +5,26 @@ Applies each seeded change under /verif/seeded/ to /repo, runs the quick check o
 Never run concurrently with other checks: /repo is modified while it runs."""
 import json, os, subprocess, sys, re
 ROOT = "/verif"
-names = sys.argv[1:] or sorted(os.listdir(ROOT + "/seeded"))
+# --shadow: run in the isolated copy made by tools/shadow.sh (leaves /repo alone)
+SHADOW = "--shadow" in sys.argv
+args = [a for a in sys.argv[1:] if a != "--shadow"]
+RUN, REPO = ("/tmp/fvshadow/verif", "/tmp/fvshadow/repo") if SHADOW else (ROOT, "/repo")
+os.environ["FUOTA_REPO"] = REPO
+names = args or sorted(os.listdir(ROOT + "/seeded"))
 for n in names:
     d = "%s/seeded/%s" % (ROOT, n)
     if not os.path.isfile(d + "/patch.diff"):
         continue
     meta = json.load(open(d + "/meta.json"))
     props = [meta["property"]] + meta.get("also", [])
-    if subprocess.run(["git", "-C", "/repo", "status", "--porcelain", "--untracked-files=no"], capture_output=True, text=True).stdout.strip():
-        sys.exit("/repo is not clean")
-    if subprocess.run(["git", "-C", "/repo", "apply", d + "/patch.diff"]).returncode != 0:
+    if subprocess.run(["git", "-C", REPO, "status", "--porcelain", "--untracked-files=no"], capture_output=True, text=True).stdout.strip():
+        sys.exit(REPO + " is not clean")
+    if subprocess.run(["git", "-C", REPO, "apply", d + "/patch.diff"]).returncode != 0:
         print(n, "patch does not apply"); continue
     res = {}
     try:
         for p in props:
-            r = subprocess.run([ROOT + "/fvcheck", p], capture_output=True, text=True)
+            r = subprocess.run([RUN + "/fvcheck", p], capture_output=True, text=True)
             vio = [l for l in r.stdout.splitlines() if l.startswith("VIOLATION")]
             rec = {"exit": r.returncode, "violation_line": vio[0] if vio else None,
                    "concrete_input": bool(vio) and "no-failing-input-found" not in vio[0]}
@@ -35,5 +40,5 @@ for n in names:
             res[p] = rec
             print(n, p, "exit", r.returncode, "concrete" if rec["concrete_input"] else ("broken-only" if vio else "MISSED"), flush=True)
     finally:
-        subprocess.run(["git", "-C", "/repo", "checkout", "--", "."])
+        subprocess.run(["git", "-C", REPO, "checkout", "--", "."])
     json.dump({"seed": n, "property": meta["property"], "checks": res}, open(d + "/result.json", "w"), indent=1)
